@@ -158,6 +158,17 @@ def _split(jobs_cases, op, extra, nchunks=8):
     return out
 
 
+def probe_default_port():
+    """which port does renderobjinfo hand to geturl for an entry with a host but no port of its own:
+    the server's (repaired, /repo ee294ab) or the constant 70 (pinned)?"""
+    f = {"selector": "/p", "type": "1", "name": "n", "host": "x.example"}
+    r = impl_run([{"op": "c06_rows", "config": {}, "srvname": L(SRV), "srvport": 7070,
+                   "cases": [{"proto": "http", "entry": js_entry(f)}]}])[0]
+    if not r["ok"]:
+        raise RuntimeError(r["err"] + r.get("tb", ""))
+    return "x.example:7070/" in (S(r["res"][0]["out"]) or "")
+
+
 def probe_pinned():
     """does the code under test escape the link target in HREF (repaired) or not (pinned)?
     The model variant compared is the one the code implements; the defect itself is the
@@ -216,7 +227,11 @@ def run_k06(chk, tier):
         for proto in ("gopher", "gopherplus", "http", "gemini", "spartan"):
             rcases.append({"proto": proto, "entry": js_entry(f)})
         rcases.append({"proto": "wap", "entry": js_entry(f), "key": (i * 5) % 15, "post": (i * 7) % 23})
-    rres = _split(rcases, "c06_rows", {"config": {}, "srvname": L(SRV), "srvport": 70})
+    RPORT = 7070   # the rows are rendered by a server that is not on port 70
+    port_fixed = probe_default_port()
+    dport = RPORT if port_fixed else 70
+    details["variant"]["default_port"] = "server port (repaired)" if port_fixed else "70 (pinned)"
+    rres = _split(rcases, "c06_rows", {"config": {}, "srvname": L(SRV), "srvport": RPORT})
     per = {"gopher": ([], []), "gopherplus": ([], []), "http": ([], []), "wap": ([], []), "gemini": ([], []), "spartan": ([], [])}
     for c, o in zip(rcases, rres):
         proto = c["proto"]
@@ -225,15 +240,15 @@ def run_k06(chk, tier):
         out = S(o["out"])
         cs, rw = per[proto]
         if proto in ("gopher", "gopherplus"):
-            cs.append("(((%s, %s), %s), %s)" % (coq_str(SRV), cq_z(70), cq_entry(f), cq_ostr(out)))
+            cs.append("(((%s, %s), %s), %s)" % (coq_str(SRV), cq_z(RPORT), cq_entry(f), cq_ostr(out)))
         elif proto == "http":
-            cs.append("(((%s, (icons, %s)), %s), %s)" % (coq_bool(pin_http), coq_str(SRV), cq_entry(f), cq_ostr(out)))
+            cs.append("(((%s, (icons, (%s, %s))), %s), %s)" % (coq_bool(pin_http), coq_str(SRV), cq_z(dport), cq_entry(f), cq_ostr(out)))
         elif proto == "wap":
             res = "None" if out is None else "(Some (%s, (%d%%nat, %d%%nat)))" % (coq_str(out), o["key"], o["post"])
-            cs.append("((((%s, (%s, %s)), (%d%%nat, %d%%nat)), %s), %s)" % (
-                coq_bool(pin_wap), coq_str("/wap"), coq_str(SRV), c["key"], c["post"], cq_entry(f), res))
+            cs.append("((((%s, (%s, (%s, %s))), (%d%%nat, %d%%nat)), %s), %s)" % (
+                coq_bool(pin_wap), coq_str("/wap"), coq_str(SRV), cq_z(dport), c["key"], c["post"], cq_entry(f), res))
         else:
-            cs.append("(((%s, %s), %s), %s)" % (coq_bool(proto == "spartan"), coq_str(SRV), cq_entry(f), cq_ostr(out)))
+            cs.append("(((%s, (%s, %s)), %s), %s)" % (coq_bool(proto == "spartan"), coq_str(SRV), cq_z(dport), cq_entry(f), cq_ostr(out)))
         rw.append({"protocol": proto, "entry": f, "impl": out, "exc": o["exc"]})
         chk.count(("row", proto, repr(f)), nontrivial=out is not None)
     pre_icons = PRE + "Definition icons : list (str * str) := %s.\n" % cq_pairs(icons)
@@ -375,10 +390,10 @@ def run_k06(chk, tier):
             continue
         line = S(o["out"]).encode("utf-8", "surrogateescape")
         try:
-            v = pgsite.view_gopher(V.parse_gopher_menu(line))
+            v = pgsite.view_gopher(V.parse_gopher_menu(line), RPORT)
         except V.Malformed:
             continue
-        cases.append("(((%s, %s), %s), %s)" % (coq_str(SRV), cq_z(70), cq_entry(f), "(Some %s)" % cq_vitem(v[0])))
+        cases.append("(((%s, %s), %s), %s)" % (coq_str(SRV), cq_z(RPORT), cq_entry(f), "(Some %s)" % cq_vitem(v[0])))
         raw.append({"entry": f, "pgsite_view": repr(v[0])})
     evaluate("k_entry_view", "chk_entry_view", cases, raw)
 
@@ -400,7 +415,7 @@ def run_k06(chk, tier):
     cfg1 = {"pygopherd": {"abstract_entries": "never", "abstract_headers": "off"},
             "protocols.gemini.GeminiProtocol": {"footer": None}, "protocols.gemini.SpartanProtocol": {"footer": None},
             "protocols.http.HTTPProtocol": {"pagetopper": None}}
-    wres = _split(wcases, "c06_dirs", {"config": cfg1, "srvname": L(SRV), "srvport": 70})
+    wres = _split(wcases, "c06_dirs", {"config": cfg1, "srvname": L(SRV), "srvport": RPORT})
 
     def one_view(proto, out):
         if out is None:
@@ -408,7 +423,7 @@ def run_k06(chk, tier):
         body = out.encode("latin-1")
         try:
             if proto in ("gopher", "gopherplus"):
-                v = pgsite.view_gopher(V.parse_gopher_menu(body))
+                v = pgsite.view_gopher(V.parse_gopher_menu(body), RPORT)
             elif proto == "http":
                 v = pgsite.view_html(body)
             elif proto == "wap":
@@ -472,7 +487,7 @@ def run_k06(chk, tier):
     cases, raw = [], []
     for i, f in enumerate(cand):
         vs = [one_view(proto, wres[i * 6 + j]["out"]) for j, proto in enumerate(protos6)]
-        cases.append("(((%s, %s), %s), %s)" % (coq_str(SRV), cq_z(70), cq_entry(f),
+        cases.append("(((%s, %s), %s), %s)" % (coq_str(SRV), cq_z(RPORT), cq_entry(f),
                                                coq_list("(@None vitem)" if v is None else "(Some %s)" % cq_vitem(v) for v in vs)))
         raw.append({"entry": f, "pgsite_views": dict(zip(protos6, map(repr, vs)))})
     evaluate("k_wf_views", "chk_wf_views", cases, raw)
@@ -641,12 +656,12 @@ def run_k13(chk, tier):
         out = S(o["out"])
         chk.count(("row13", c["proto"], repr(f)), nontrivial=out is not None)
         if c["proto"] == "http":
-            hc.append("(((%s, (icons, %s)), %s), %s)" % (coq_bool(pin_http), coq_str(SRV), cq_entry(f), cq_ostr(out)))
+            hc.append("(((%s, (icons, (%s, %s))), %s), %s)" % (coq_bool(pin_http), coq_str(SRV), cq_z(70), cq_entry(f), cq_ostr(out)))
             hraw.append({"protocol": "http", "entry": f, "impl": out, "exc": o["exc"]})
         else:
             res_ = "None" if out is None else "(Some (%s, (%d%%nat, %d%%nat)))" % (coq_str(out), o["key"], o["post"])
-            wc.append("((((%s, (%s, %s)), (%d%%nat, %d%%nat)), %s), %s)" % (
-                coq_bool(pin_wap), coq_str("/wap"), coq_str(SRV), c["key"], c["post"], cq_entry(f), res_))
+            wc.append("((((%s, (%s, (%s, %s))), (%d%%nat, %d%%nat)), %s), %s)" % (
+                coq_bool(pin_wap), coq_str("/wap"), coq_str(SRV), cq_z(70), c["key"], c["post"], cq_entry(f), res_))
             wraw.append({"protocol": "wap", "entry": f, "impl": out, "exc": o["exc"]})
         if out is not None:
             pages.append((c["proto"] + ":row", out))
